@@ -54,7 +54,8 @@ def gen_cases(ctx):
     nrand = 20000 if ctx.quick else 300000
     pieces_ws = [" ", "\t", "\n", "\r\n", "\r", "  ", "\n\n"]
     ops = list("()[]{}*/%@.=,<>+-:&") + ["<<", "<=", "<>", ">>", ">=", "&&", "++", "+=", "--", "-=", ":="]
-    weird = ["$", "!", "?", "\\", "~", "^", "|", "`", "é", "中", "\U0001f600", "\x0c", " "]
+    weird = ["$", "!", "?", "\\", "~", "^", "|", "`", "\u00e9", "\u4e2d", "\U0001f600", "\x0c", "\u00a0",
+             "\ufeff", "\u200b", "\u2028", "\x00", "\x7f", "\u0130", "\u00df"]
     for _ in range(nrand):
         parts = []
         for _ in range(rng.randint(1, 14)):
@@ -76,14 +77,30 @@ def gen_cases(ctx):
             elif k < 0.62:
                 parts.append(";" + "".join(rng.choice("ab '\";é") for _ in range(rng.randint(0, 6))) + rng.choice(["\n", "\r\n", ""]))
             elif k < 0.68:
-                parts.append("#" + "".join(rng.choice("0123456789") for _ in range(rng.randint(0, 3))))
+                parts.append("#" + "".join(rng.choice("0123456789") for _ in range(rng.choice([0, 1, 2, 3, 3, 5, 10, 11, 20, 25]))))
             elif k < 0.8:
                 parts.append(rng.choice(ops))
             elif k < 0.86:
                 parts.append(rng.choice(weird))
             parts.append(rng.choice(pieces_ws) if rng.random() < 0.7 else "")
         s = "".join(parts)
+        if rng.random() < 0.03:
+            s = "\ufeff" + s          # a byte order mark in front of the text
         cases.append(".".join(str(ord(c)) for c in s))
+    # scale: every kind of atom repeated around the usual internal limits (buffers, caps, u8/u16 counters), alone and
+    # separated by blanks / line ends; integer literals around the machine word sizes
+    sizes = [99, 100, 101, 127, 128, 129, 255, 256, 257, 1000, 1023, 1024, 1025] + ([] if ctx.quick else [4095, 4096, 4097, 65535, 65536, 65537])
+    atoms = ["$", "\u00e9", "a", "7", "'x'", ";c\n", "+", "\n", "\r\n", "'", "#1", "1.5", "\ufeff"]
+    for n in sizes:
+        for a in atoms:
+            cases.append(".".join(str(ord(c)) for c in a * n))
+            cases.append(".".join(str(ord(c)) for c in (a + " ") * n))
+            cases.append(".".join(str(ord(c)) for c in ("x " + (a + "\n") * n + "class")))
+    for d in ["255", "256", "65535", "65536", "2147483647", "2147483648", "4294967295", "4294967296", "9223372036854775807",
+              "9223372036854775808", "18446744073709551615", "18446744073709551616", "9" * 40, "0" * 40, "1" * 400]:
+        for pre in ["", "#", "x = ", "0.", "1e", "-"]:
+            for post in ["", ".5", " y", "x"]:
+                cases.append(".".join(str(ord(c)) for c in pre + d + post))
     return cases
 
 
